@@ -51,7 +51,44 @@ func cmdSelftest(args []string) int {
 	}
 	self, _ := os.Executable()
 	caught, missed, quiet, falseAlarms := 0, 0, 0, 0
+	// GOVC_SELFTEST_ONLY=<a,b,...>: run only the entries whose name contains one of these; the others keep the outcome
+	// recorded by the last full run (an incremental run after new entries were added to the corpus)
+	var only []string
+	prev := map[string]*entry{}
+	if o := os.Getenv("GOVC_SELFTEST_ONLY"); o != "" {
+		only = strings.Split(o, ",")
+		var old struct {
+			Entries []*entry `json:"entries"`
+		}
+		if b, err := os.ReadFile(filepath.Join(*verif, "evidence", *prop+".selftest.json")); err == nil && json.Unmarshal(b, &old) == nil {
+			for _, e := range old.Entries {
+				prev[e.Name] = e
+			}
+		}
+	}
 	for _, e := range entries {
+		if only != nil {
+			sel := false
+			for _, o := range only {
+				if strings.Contains(e.Name, o) {
+					sel = true
+				}
+			}
+			if pe := prev[e.Name]; !sel && pe != nil {
+				e.Outcome, e.Detail = pe.Outcome, pe.Detail
+				switch e.Outcome {
+				case "caught":
+					caught++
+				case "missed":
+					missed++
+				case "quiet":
+					quiet++
+				case "false-alarm":
+					falseAlarms++
+				}
+				continue
+			}
+		}
 		scratch, err := os.MkdirTemp("", "govc-selftest-")
 		if err != nil {
 			e.Outcome, e.Detail = "not-applicable", err.Error()
